@@ -9,10 +9,74 @@ structure LiveT where
   data : Nat
   exps : List (Bytes × List Part)
 
-/-- what a stored value must say about expansion `e` of live template `lt` -/
+/-- the last expansion with parts `Q` -/
+def pickLast (Q : List Part) : List (Bytes × List Part) → Option (Bytes × List Part)
+  | [] => none
+  | e :: rest => match pickLast Q rest with | some x => some x | none => if e.2 = Q then some e else none
+
+/-- the expansion whose value ends up stored under key `Q` when a template's expansions are inserted in order:
+the last one with these parts — for a catch-all key the first one (`insert_end_wildcard*` keep what is there).
+Different expansions of one template can have the same parts (`(/a)(/a)`, `((/a))`, `(/a)(/\a)`). -/
+def pick (Q : List Part) (ts : List (Bytes × List Part)) : Option (Bytes × List Part) :=
+  if catchAllEnd Q then ts.find? (fun e => e.2 == Q) else pickLast Q ts
+
+theorem pickLast_mem (Q : List Part) : ∀ (ts : List (Bytes × List Part)) (e : Bytes × List Part), pickLast Q ts = some e → e ∈ ts ∧ e.2 = Q
+  | [], _, h => by cases h
+  | x :: rest, e, h => by
+    simp only [pickLast] at h
+    cases hr : pickLast Q rest with
+    | some y =>
+      rw [hr] at h; simp only [Option.some.injEq] at h; subst h
+      have := pickLast_mem Q rest y hr
+      exact ⟨List.mem_cons_of_mem _ this.1, this.2⟩
+    | none =>
+      rw [hr] at h
+      simp only at h
+      split at h
+      · rename_i hx; injection h with h; subst h; exact ⟨by simp, hx⟩
+      · cases h
+
+theorem pickLast_none (Q : List Part) : ∀ (ts : List (Bytes × List Part)), pickLast Q ts = none → ∀ e ∈ ts, e.2 ≠ Q
+  | [], _, e, he => by cases he
+  | x :: rest, h, e, he => by
+    simp only [pickLast] at h
+    cases hr : pickLast Q rest with
+    | some y => rw [hr] at h; cases h
+    | none =>
+      rw [hr] at h
+      simp only at h
+      rcases List.mem_cons.1 he with rfl | he'
+      · intro hx; simp [hx] at h
+      · exact pickLast_none Q rest hr e he'
+
+theorem pick_mem {Q : List Part} {ts : List (Bytes × List Part)} {e : Bytes × List Part} (h : pick Q ts = some e) :
+    e ∈ ts ∧ e.2 = Q := by
+  unfold pick at h
+  split at h
+  · exact ⟨List.mem_of_find?_eq_some h, by simpa using List.find?_some h⟩
+  · exact pickLast_mem Q ts e h
+
+theorem pick_of_mem {ts : List (Bytes × List Part)} {e : Bytes × List Part} (he : e ∈ ts) : ∃ e', pick e.2 ts = some e' := by
+  unfold pick
+  split
+  · cases hf : ts.find? (fun x => x.2 == e.2) with
+    | some x => exact ⟨x, rfl⟩
+    | none => have := List.find?_eq_none.1 hf e he; simp at this
+  · cases hf : pickLast e.2 ts with
+    | some x => exact ⟨x, rfl⟩
+    | none => exact absurd rfl (pickLast_none e.2 ts hf e he)
+
+theorem pick_none {Q : List Part} {ts : List (Bytes × List Part)} (h : pick Q ts = none) : ∀ e ∈ ts, e.2 ≠ Q := by
+  intro e he hq
+  obtain ⟨e', he'⟩ := pick_of_mem he
+  rw [hq, h] at he'; cases he'
+
+/-- what a stored value must say about expansion `e` of live template `lt`: template and data of `lt`, and the text,
+depth and length of the expansion of `lt` that owns the key `e.2` -/
 def infoOK (lt : LiveT) (e : Bytes × List Part) (i : Info) : Prop :=
-  i.template = lt.template ∧ i.data = lt.data ∧ i.expanded = (if lt.exps.length > 1 then some e.1 else none) ∧
-  i.depth = countSlash e.1 ∧ i.length = e.1.length
+  i.template = lt.template ∧ i.data = lt.data ∧ ∃ e', pick e.2 lt.exps = some e' ∧
+  i.expanded = (if lt.exps.length > 1 then some e'.1 else none) ∧
+  i.depth = countSlash e'.1 ∧ i.length = e'.1.length
 
 structure Reg (root : Node) (L : List LiveT) : Prop where
   shp : Node.Shp root
@@ -62,19 +126,20 @@ theorem insertOk_root_eq (r : Router) (t : Bytes) (d : Nat) (ts : List (Bytes ×
     · exact (hne _ _ rfl).elim
     · rfl
 
-theorem insInfo_ok (t : Bytes) (d cell : Nat) (ts : List (Bytes × List Part)) (e : Bytes × List Part) (he : e ∈ ts) :
-    infoOK ⟨t, d, ts⟩ e (insInfo t d cell ts e) := by
+theorem insInfo_ok (t : Bytes) (d cell : Nat) (ts : List (Bytes × List Part)) (e e' : Bytes × List Part)
+    (hpk : pick e.2 ts = some e') : infoOK ⟨t, d, ts⟩ e (insInfo t d cell ts e') := by
+  have he' := (pick_mem hpk).1
   unfold insInfo
   split
-  · exact ⟨rfl, rfl, by simp [inlineInfo], rfl, rfl⟩
+  · exact ⟨rfl, rfl, e', hpk, by simp [inlineInfo], rfl, rfl⟩
   · rename_i hne
     have hlen : ts.length > 1 := by
       cases ts with
-      | nil => cases he
+      | nil => cases he'
       | cons a rest => cases rest with
         | nil => exact (hne a rfl).elim
         | cons b rest' => simp
-    exact ⟨rfl, rfl, by simp [sharedInfo, hlen], rfl, rfl⟩
+    exact ⟨rfl, rfl, e', hpk, by simp [sharedInfo, hlen], rfl, rfl⟩
 
 theorem conflictsOf_nil {root : Node} {ts : List (Bytes × List Part)} (h : conflictsOf root ts = []) :
     ∀ e ∈ ts, Node.find root e.2 = none := by
@@ -85,10 +150,43 @@ theorem conflictsOf_nil {root : Node} {ts : List (Bytes × List Part)} (h : conf
   | none => rfl
   | some i => rw [hf] at this; simp at this
 
-/-- lookups after a successful insert of fresh, pairwise different expansions: the new keys carry the new values,
-every other key is untouched -/
+/-- the fold over the inserted routes, in terms of `pick` -/
+theorem insVal_map (f : Bytes × List Part → Info) (Q : List Part) : ∀ (ts : List (Bytes × List Part)) (old : Option Info),
+    insVal Q (ts.map (fun e => (e.2, f e))) old =
+      if catchAllEnd Q then (match old with | some v => some v | none => (ts.find? (fun e => e.2 == Q)).map f)
+      else (match pickLast Q ts with | some x => some (f x) | none => old)
+  | [], old => by cases old <;> simp [insVal, pickLast]
+  | e :: rest, old => by
+    simp only [List.map_cons, insVal]
+    rw [insVal_map f Q rest]
+    by_cases hc : catchAllEnd Q = true
+    · simp only [hc, ite_true]
+      by_cases he : e.2 = Q
+      · simp only [he, ite_true, keepOld, hc]
+        cases old <;> simp [he]
+      · have : (e.2 == Q) = false := by simpa using he
+        simp only [he, ite_false]
+        cases old <;> simp [List.find?_cons, this]
+    · simp only [hc, Bool.false_eq_true, ite_false, pickLast]
+      cases hr : pickLast Q rest with
+      | some x => rfl
+      | none =>
+        by_cases he : e.2 = Q
+        · simp [he, keepOld, hc]
+        · simp [he]
+
+theorem lookupIns_map (f : Bytes × List Part → Info) (Q : List Part) (ts : List (Bytes × List Part)) :
+    lookupIns (ts.map (fun e => (e.2, f e))) Q = (pick Q ts).map f := by
+  unfold lookupIns pick
+  rw [insVal_map]
+  split
+  · rfl
+  · cases pickLast Q ts <;> rfl
+
+/-- lookups after a successful insert of fresh expansions: the new keys carry the new values, every other key is
+untouched -/
 theorem insertOk_find {r : Router} {t : Bytes} {d : Nat} {ts : List (Bytes × List Part)} (hS : Node.Shp r.root)
-    (hp : parseTemplates t = .ok ts) (hd : DistinctExps ts) (hc : conflictsOf r.root ts = []) :
+    (hp : parseTemplates t = .ok ts) (hc : conflictsOf r.root ts = []) :
     Node.Shp (r.insertOk t d ts).root ∧
     ∀ Q, wfParts Q = true → Node.find (r.insertOk t d ts).root Q =
       (match lookupIns (ts.map (fun e => (e.2, insInfo t d r.next ts e))) Q with
@@ -99,114 +197,65 @@ theorem insertOk_find {r : Router} {t : Bytes} {d : Nat} {ts : List (Bytes × Li
     intro x hx
     obtain ⟨e, he, rfl⟩ := List.mem_map.1 hx
     exact hwf e he
-  have hxs2 : ((ts.map (fun e => (e.2, insInfo t d r.next ts e))).map (·.1)).Nodup := by
-    have : (ts.map (fun e => (e.2, insInfo t d r.next ts e))).map (·.1) = ts.map (·.2) := by simp [List.map_map]
-    rw [this]; exact hd
   have hxs3 : ∀ x ∈ ts.map (fun e => (e.2, insInfo t d r.next ts e)), Node.find r.root x.1 = none := by
     intro x hx
     obtain ⟨e, he, rfl⟩ := List.mem_map.1 hx
     exact hfresh e he
-  obtain ⟨hS', hfind⟩ := find_foldl_insert _ r.root hS hxs1 hxs2 hxs3
+  obtain ⟨hS', hfind⟩ := find_foldl_insert _ r.root hS hxs1 hxs3
   have hroot := insertOk_root_eq r t d ts
   refine ⟨by rw [hroot]; exact Node.optimize_Shp _ hS', ?_⟩
   intro Q hQ
   rw [hroot, Node.find_optimize _ Q hS']
   exact hfind Q hQ
 
-theorem lookupIns_new_key {t : Bytes} {d cell : Nat} {ts : List (Bytes × List Part)} (hd : DistinctExps ts) :
-    ∀ e ∈ ts, lookupIns (ts.map (fun e => (e.2, insInfo t d cell ts e))) e.2 = some (insInfo t d cell ts e) := by
+/-- the value found under the key of an inserted expansion is the one of the expansion that owns the key -/
+theorem lookupIns_new_key {t : Bytes} {d cell : Nat} {ts : List (Bytes × List Part)} :
+    ∀ e ∈ ts, ∃ e', pick e.2 ts = some e' ∧
+      lookupIns (ts.map (fun e => (e.2, insInfo t d cell ts e))) e.2 = some (insInfo t d cell ts e') := by
   intro e he
-  unfold lookupIns
-  cases hf : (ts.map (fun e => (e.2, insInfo t d cell ts e))).find? (fun x => x.1 == e.2) with
-  | none =>
-    have := List.find?_eq_none.1 hf (e.2, insInfo t d cell ts e) (List.mem_map.2 ⟨e, he, rfl⟩)
-    simp at this
-  | some x =>
-    have hx := List.mem_of_find?_eq_some hf
-    have hk : x.1 = e.2 := by simpa using List.find?_some hf
-    obtain ⟨e', he', rfl⟩ := List.mem_map.1 hx
-    have : e' = e := eq_of_nodup_map (fun (x : Bytes × List Part) => x.2) ts (show (ts.map (fun x => x.2)).Nodup from hd) e' he' e he hk
-    subst this; rfl
+  obtain ⟨e', hpk⟩ := pick_of_mem he
+  exact ⟨e', hpk, by rw [lookupIns_map, hpk]; rfl⟩
+
+theorem pick_distinct {ts : List (Bytes × List Part)} (hd : DistinctExps ts) {e : Bytes × List Part} (he : e ∈ ts) :
+    pick e.2 ts = some e := by
+  obtain ⟨e', hpk⟩ := pick_of_mem he
+  obtain ⟨he', hk⟩ := pick_mem hpk
+  have : e' = e := eq_of_nodup_map (fun (x : Bytes × List Part) => x.2) ts (show (ts.map (fun x => x.2)).Nodup from hd) e' he' e he hk
+  rw [hpk, this]
 
 theorem lookupIns_some_key {t : Bytes} {d cell : Nat} {ts : List (Bytes × List Part)} {Q : List Part} {j : Info}
     (h : lookupIns (ts.map (fun e => (e.2, insInfo t d cell ts e))) Q = some j) :
-    ∃ e ∈ ts, e.2 = Q ∧ j = insInfo t d cell ts e := by
-  unfold lookupIns at h
-  cases hff : (ts.map (fun e => (e.2, insInfo t d cell ts e))).find? (fun x => x.1 == Q) with
-  | none => rw [hff] at h; cases h
-  | some x =>
-    rw [hff] at h
-    simp only [Option.map_some, Option.some.injEq] at h
-    have hx := List.mem_of_find?_eq_some hff
-    have hk : x.1 = Q := by simpa using List.find?_some hff
-    obtain ⟨e, he, rfl⟩ := List.mem_map.1 hx
-    exact ⟨e, he, hk, h.symm⟩
+    ∃ e, pick Q ts = some e ∧ j = insInfo t d cell ts e := by
+  rw [lookupIns_map] at h
+  cases hpk : pick Q ts with
+  | none => rw [hpk] at h; cases h
+  | some e => rw [hpk] at h; exact ⟨e, rfl, by simpa using h.symm⟩
 
-/-- **insert step.** A successful insert of a template whose expansions are pairwise different adds exactly that
-template to the registry. -/
+/-- **insert step.** A successful insert adds exactly that template to the registry. -/
 theorem Reg.insert {r r' : Router} {L : List LiveT} {t : Bytes} {d : Nat} (h : Reg r.root L)
-    (hi : r.insert t d = .ok r') (ts : List (Bytes × List Part)) (hp : parseTemplates t = .ok ts) (hd : DistinctExps ts) :
+    (hi : r.insert t d = .ok r') (ts : List (Bytes × List Part)) (hp : parseTemplates t = .ok ts) :
     Reg r'.root (L ++ [⟨t, d, ts⟩]) := by
   obtain ⟨ts', hp', _, hc, rfl⟩ := (Router.insert_ok_iff r r' t d).1 hi
   rw [hp] at hp'; injection hp' with hp'; subst hp'
   have hwf := parse_wf hp
   have hfresh := conflictsOf_nil hc
-  let xs := ts.map (fun e => (e.2, insInfo t d r.next ts e))
-  have hxs1 : ∀ x ∈ xs, wfParts x.1 = true := by
-    intro x hx
-    obtain ⟨e, he, rfl⟩ := List.mem_map.1 hx
-    exact hwf e he
-  have hxs2 : (xs.map (·.1)).Nodup := by
-    have : xs.map (·.1) = ts.map (·.2) := by simp [xs, List.map_map]
-    rw [this]; exact hd
-  have hxs3 : ∀ x ∈ xs, Node.find r.root x.1 = none := by
-    intro x hx
-    obtain ⟨e, he, rfl⟩ := List.mem_map.1 hx
-    exact hfresh e he
-  obtain ⟨hS', hfind⟩ := find_foldl_insert xs r.root h.shp hxs1 hxs2 hxs3
-  have hroot := insertOk_root_eq r t d ts
-  have hfind' : ∀ Q, wfParts Q = true → Node.find (r.insertOk t d ts).root Q =
-      (match lookupIns xs Q with | some i => some i | none => Node.find r.root Q) := by
-    intro Q hQ
-    rw [hroot, Node.find_optimize _ Q hS']
-    exact hfind Q hQ
-  have hlook : ∀ e ∈ ts, lookupIns xs e.2 = some (insInfo t d r.next ts e) := by
-    intro e he
-    unfold lookupIns
-    cases hf : xs.find? (fun x => x.1 == e.2) with
-    | none =>
-      have := List.find?_eq_none.1 hf (e.2, insInfo t d r.next ts e) (List.mem_map.2 ⟨e, he, rfl⟩)
-      simp at this
-    | some x =>
-      have hx := List.mem_of_find?_eq_some hf
-      have hk : x.1 = e.2 := by simpa using List.find?_some hf
-      obtain ⟨e', he', rfl⟩ := List.mem_map.1 hx
-      -- distinct part lists: e' = e
-      have : e' = e := by
-        exact eq_of_nodup_map (fun (x : Bytes × List Part) => x.2) ts (show (ts.map (fun x => x.2)).Nodup from hd) e' he' e he hk
-      subst this; rfl
-  refine ⟨by rw [hroot]; exact Node.optimize_Shp _ hS', ?_, ?_, ?_⟩
+  obtain ⟨hS', hfind'⟩ := insertOk_find (d := d) h.shp hp hc
+  refine ⟨hS', ?_, ?_, ?_⟩
   · intro lt hlt
     rcases List.mem_append.1 hlt with hlt | hlt
     · exact h.parsed lt hlt
     · simp only [List.mem_singleton] at hlt; subst hlt; exact hp
   · intro P i hP hf
     rw [hfind' P hP] at hf
-    cases hl : lookupIns xs P with
+    cases hl : lookupIns (ts.map (fun e => (e.2, insInfo t d r.next ts e))) P with
     | some j =>
       rw [hl] at hf
       simp only [Option.some.injEq] at hf
       subst hf
-      unfold lookupIns at hl
-      cases hff : xs.find? (fun x => x.1 == P) with
-      | none => rw [hff] at hl; cases hl
-      | some x =>
-        rw [hff] at hl
-        simp only [Option.map_some, Option.some.injEq] at hl
-        have hx := List.mem_of_find?_eq_some hff
-        have hk : x.1 = P := by simpa using List.find?_some hff
-        obtain ⟨e, he, rfl⟩ := List.mem_map.1 hx
-        exact ⟨⟨t, d, ts⟩, by simp, e, he, hk, by rw [← hl]; exact insInfo_ok t d r.next ts e he⟩
+      obtain ⟨e, hpk, hj⟩ := lookupIns_some_key hl
+      obtain ⟨he, hk⟩ := pick_mem hpk
+      refine ⟨⟨t, d, ts⟩, by simp, e, he, hk, ?_⟩
+      rw [hj]; exact insInfo_ok t d r.next ts e e (by rw [hk]; exact hpk)
     | none =>
       rw [hl] at hf
       obtain ⟨lt, hlt, e, he, hk, hok⟩ := h.sound P i hP hf
@@ -217,13 +266,16 @@ theorem Reg.insert {r r' : Router} {L : List LiveT} {t : Bytes} {d : Nat} (h : R
       refine ⟨i, ?_, hok⟩
       have hwfe : wfParts e.2 = true := parse_wf (h.parsed lt hlt) e he
       rw [hfind' e.2 hwfe]
-      have : lookupIns xs e.2 = none := by
+      have : lookupIns (ts.map (fun e => (e.2, insInfo t d r.next ts e))) e.2 = none := by
         apply lookupIns_none_of_not_mem
         intro hmem
         obtain ⟨x, hx, hxe⟩ := List.mem_map.1 hmem
-        have := hxs3 x hx
+        obtain ⟨e', he', rfl⟩ := List.mem_map.1 hx
+        have := hfresh e' he'
+        simp only at hxe
         rw [hxe, hf] at this; cases this
       rw [this]; exact hf
     · simp only [List.mem_singleton] at hlt; subst hlt
-      refine ⟨insInfo t d r.next ts e, ?_, insInfo_ok t d r.next ts e he⟩
-      rw [hfind' e.2 (hwf e he), hlook e he]
+      obtain ⟨e', hpk, hlk⟩ := lookupIns_new_key (t := t) (d := d) (cell := r.next) e he
+      refine ⟨insInfo t d r.next ts e', ?_, insInfo_ok t d r.next ts e e' hpk⟩
+      rw [hfind' e.2 (hwf e he), hlk]
